@@ -5,5 +5,6 @@ CONSTANTS
   Stateless = FALSE
   MaxSlots = 2
   MaxParked = 2
+  StoreModes = {}
 INVARIANTS NoTimeoutDuringPost ClosedAndForgotten TimerDiscipline
 CHECK_DEADLOCK FALSE
